@@ -21,6 +21,9 @@ class Canon:
     def tok(self, t):
         return self.paths[id(t)]
 
+    def opttok(self, t):
+        return 'None' if t is None else self.paths[id(t)]
+
     def optstr(self, v):
         if v is None:
             return 'None'
@@ -64,7 +67,7 @@ ACCESSORS = [
     ('get_array_indices', 'get_array_indices', lambda n: list(n.get_array_indices()), 'tokss'),
     ('get_identifiers', 'get_identifiers', lambda n: list(n.get_identifiers()), 'toks'),
     ('get_parameters', 'get_parameters', lambda n: list(n.get_parameters()), 'toks'),
-    ('get_window', 'get_window', lambda n: n.get_window(), 'tok'),
+    ('get_window', 'get_window', lambda n: n.get_window(), 'opttok'),
     ('get_cases', 'get_cases', lambda n: n.get_cases(), 'cases'),
     ('get_cases_skip', 'get_cases', lambda n: n.get_cases(skip_ws=True), 'cases'),
     ('left', 'left', lambda n: n.left, 'tok'),
